@@ -116,6 +116,18 @@ def tokenize(text):
 ACCESS = ["RW", "READ", "WRITE", "CTL"]
 
 
+def kind_of(name):
+    """identifier kinds of the generated programs (engine E5 naming): task classes T<n>, collections D / E,
+    flows A B C X<n> Y, everything else (globals, parameters, derived locals) is integer valued"""
+    if re.match(r"^T\d+$", name):
+        return "class"
+    if name in ("D", "E"):
+        return "collection"
+    if re.match(r"^(A|B|C|Y|X\d+)$", name):
+        return "flow"
+    return "int"
+
+
 def mutate(draw, text, declared):
     toks = tokenize(text)
     # embedded C (prologue/epilogue %{ %}, inline expressions, BODY..END) is opaque to the JDF compiler: never mutated
@@ -152,10 +164,14 @@ def mutate(draw, text, declared):
                 toks[k] = str(max(0, int(toks[k]) + pick(draw, [-1, 1, 7])))
         elif op == "rename":
             # rename one identifier occurrence to another *declared* identifier (parameters, globals, flows, classes)
+            # The replacement has the same *kind* (integer-valued name / flow / task class / collection): the C types of
+            # globals are opaque strings to ptgpp, so an int expression using a collection pointer is a C type error that
+            # no JDF-level check can see (domain restriction, like the embedded C blocks).
             cand = [k for k in idx if re.match(r"^[A-Za-z_]\w*$", toks[k]) and toks[k] in declared]
             if cand:
                 k = cand[draw(sint(0, len(cand) - 1))]
-                toks[k] = pick(draw, sorted(declared))
+                same = [n for n in sorted(declared) if kind_of(n) == kind_of(toks[k])]
+                toks[k] = pick(draw, same)
         elif op == "undeclared":
             cand = [k for k in idx if re.match(r"^[A-Za-z_]\w*$", toks[k]) and toks[k] in declared]
             if cand:
@@ -208,10 +224,31 @@ def limit_program(kind, n):
     if kind == "write_flows":
         fl = "".join("  RW F%d <- D(k)\n          -> D(k)\n" % i for i in range(n))
         return head + ": D(k)\n" + fl + body
+    if kind == "mixed_flows":
+        # n flows in total: READ, WRITE-only (NEW) and control flows mixed, so that neither the READ nor the WRITE count alone
+        # reaches the limit (the total is what the generated task structure is sized by)
+        fl = ""
+        for i in range(n):
+            m = i % 3
+            if m == 0:
+                fl += "  READ F%d <- D(k)\n" % i
+            elif m == 1:
+                fl += "  WRITE F%d <- NEW\n           -> D(k)\n" % i
+            else:
+                fl += "  CTL F%d <- (k > 0) ? F%d TASK(k-1)\n         -> (k < NT) ? F%d TASK(k+1)\n" % (i, i, i)
+        return head + ": D(k)\n" + fl + body
+    if kind == "ctl_in_deps":
+        deps = "  READ B <- D(k)\n  CTL X <- (k == 1) ? X TASK(k-1)\n" + "".join("        <- (k == %d) ? X TASK(k-1)\n" % (i + 2) for i in range(n - 1))
+        return head + ": D(k)\n" + deps + "        -> (k < %d) ? X TASK(k+1)\n" % n + body
+    if kind == "ctl_out_deps":
+        deps = "  READ B <- D(k)\n  CTL X <- (k > 1000) ? X TASK(k-1)\n" + "".join("        -> (k == %d) ? X OTHER(k, %d)\n" % (i, i) for i in range(n))
+        other = "\nOTHER(k, j)\n  k = 0 .. NT\n  j = 0 .. %d\n: D(k)\n  READ B <- D(k)\n  CTL X <- (k == j) ? X TASK(k)\nBODY\n{ (void)k; }\nEND\n" % max(0, n - 1)
+        return head + ": D(k)\n" + deps + body + other
     raise ValueError(kind)
 
 
-LIMIT_OF = {"locals": "MAX_LOCAL_COUNT", "in_deps": "MAX_DEP_IN_COUNT", "out_deps": "MAX_DEP_OUT_COUNT", "read_flows": "MAX_PARAM_COUNT", "write_flows": "MAX_PARAM_COUNT"}
+LIMIT_OF = {"locals": "MAX_LOCAL_COUNT", "in_deps": "MAX_DEP_IN_COUNT", "out_deps": "MAX_DEP_OUT_COUNT", "read_flows": "MAX_PARAM_COUNT", "write_flows": "MAX_PARAM_COUNT",
+            "mixed_flows": "MAX_PARAM_COUNT", "ctl_in_deps": "MAX_DEP_IN_COUNT", "ctl_out_deps": "MAX_DEP_OUT_COUNT"}
 
 
 class Stats:
